@@ -2,6 +2,7 @@ package main
 
 import (
 	"fmt"
+	"go/constant"
 	"sort"
 	"strings"
 
@@ -70,6 +71,8 @@ type Flow struct {
 	Exit func(fr *Frame, st string, ret *ssa.Return) []string
 	// ContextInsensitive: memoise summaries per function only (no Resolve needed by the rule).
 	ContextInsensitive bool
+	// TrackBoolReturns: constant boolean results of inlined calls decide the If that tests them.
+	TrackBoolReturns bool
 
 	memo    map[string][]string
 	Visited map[*ssa.Function]bool
@@ -79,13 +82,19 @@ type Flow struct {
 }
 
 const deferSep = "\x00"
+const retSep = "\x01"
 
-func splitState(es string) (st, defers string) {
-	i := strings.Index(es, deferSep)
-	if i < 0 {
-		return es, ""
+// engine state = rule state, stack of registered defers, known boolean results of calls
+type est struct{ st, defers, facts string }
+
+func (e est) enc() string { return e.st + deferSep + e.defers + deferSep + e.facts }
+
+func dec(s string) est {
+	parts := strings.SplitN(s, deferSep, 3)
+	for len(parts) < 3 {
+		parts = append(parts, "")
 	}
-	return es[:i], es[i+1:]
+	return est{parts[0], parts[1], parts[2]}
 }
 
 func uniq(xs []string) []string {
@@ -104,6 +113,43 @@ func uniq(xs []string) []string {
 	return out
 }
 
+func instrID(in ssa.Instruction) string {
+	b := in.Block()
+	for i, x := range b.Instrs {
+		if x == in {
+			return fmt.Sprintf("%d.%d", b.Index, i)
+		}
+	}
+	return fmt.Sprintf("%d.?", b.Index)
+}
+
+// setFacts replaces the facts about call id with the returned constants encoded in rets ("0=true,1=false").
+func setFacts(facts, id, rets string) string {
+	var keep []string
+	for _, f := range strings.Split(facts, ",") {
+		if f != "" && !strings.HasPrefix(f, id+":") {
+			keep = append(keep, f)
+		}
+	}
+	for _, r := range strings.Split(rets, ",") {
+		if r != "" {
+			keep = append(keep, id+":"+r)
+		}
+	}
+	sort.Strings(keep)
+	return strings.Join(keep, ",")
+}
+
+func factOf(facts, id string, idx int) (val string, ok bool) {
+	pre := fmt.Sprintf("%s:%d=", id, idx)
+	for _, f := range strings.Split(facts, ",") {
+		if strings.HasPrefix(f, pre) {
+			return f[len(pre):], true
+		}
+	}
+	return "", false
+}
+
 // Run analyses fn from the given rule states and returns the rule states at its returns.
 func (f *Flow) Run(fn *ssa.Function, in []string) []string {
 	if f.memo == nil {
@@ -112,17 +158,16 @@ func (f *Flow) Run(fn *ssa.Function, in []string) []string {
 		f.Seen = map[string]bool{}
 	}
 	root := &Frame{Fn: fn, key: f.P.FnKey(fn)}
-	return f.run(root, uniq(in))
-}
-
-func (f *Flow) run(fr *Frame, in []string) []string {
 	var out []string
-	for _, st := range in {
-		out = append(out, f.runOne(fr, st)...)
+	for _, st := range uniq(in) {
+		for _, o := range f.runOne(root, st) {
+			out = append(out, strings.SplitN(o, retSep, 2)[0])
+		}
 	}
 	return uniq(out)
 }
 
+// runOne returns exit states encoded as  st + retSep + "idx=val,..." (constant boolean results).
 func (f *Flow) runOne(fr *Frame, st0 string) []string {
 	for a := fr.Parent; a != nil; a = a.Parent {
 		if a.Fn == fr.Fn {
@@ -140,7 +185,6 @@ func (f *Flow) runOne(fr *Frame, st0 string) []string {
 	f.memo[mk] = nil
 	f.Visited[fr.Fn] = true
 	fn := fr.Fn
-	// defer ids
 	deferID := map[*ssa.Defer]string{}
 	deferByID := map[string]*ssa.Defer{}
 	for _, b := range fn.Blocks {
@@ -159,8 +203,17 @@ func (f *Flow) runOne(fr *Frame, st0 string) []string {
 	}
 	var exits []string
 	work := []int{0}
-	seen[0][st0+deferSep] = true
-	pending[0] = []string{st0 + deferSep}
+	e0 := est{st: st0}.enc()
+	seen[0][e0] = true
+	pending[0] = []string{e0}
+	f.Seen[st0] = true
+	apply := func(e est, outs []string) []string {
+		var r []string
+		for _, o := range outs {
+			r = append(r, est{o, e.defers, e.facts}.enc())
+		}
+		return r
+	}
 	for len(work) > 0 {
 		bi := work[0]
 		work = work[1:]
@@ -178,58 +231,82 @@ func (f *Flow) runOne(fr *Frame, st0 string) []string {
 			switch in := in.(type) {
 			case *ssa.Defer:
 				for _, es := range cur {
-					st, ds := splitState(es)
-					outs := []string{st}
+					e := dec(es)
+					outs := []string{e.st}
 					if f.Instr != nil {
-						if r := f.Instr(fr, st, in); r != nil {
+						if r := f.Instr(fr, e.st, in); r != nil {
 							outs = r
 						}
 					}
-					nd := ds
+					nd := e.defers
 					if nd != "" {
 						nd += ","
 					}
 					nd += deferID[in]
 					for _, o := range outs {
-						next = append(next, o+deferSep+nd)
+						next = append(next, est{o, nd, e.facts}.enc())
 					}
 				}
 			case *ssa.RunDefers:
 				for _, es := range cur {
-					st, ds := splitState(es)
-					sts := []string{st}
-					if ds != "" {
-						ids := strings.Split(ds, ",")
+					e := dec(es)
+					sts := []string{e.st}
+					if e.defers != "" {
+						ids := strings.Split(e.defers, ",")
 						for i := len(ids) - 1; i >= 0; i-- {
 							d := deferByID[ids[i]]
 							var nsts []string
 							for _, s := range sts {
-								nsts = append(nsts, f.doCall(fr, s, d, true)...)
+								for _, o := range f.doCall(fr, s, d, true) {
+									nsts = append(nsts, strings.SplitN(o, retSep, 2)[0])
+								}
 							}
 							sts = uniq(nsts)
 						}
 					}
 					for _, s := range sts {
-						next = append(next, s+deferSep)
+						next = append(next, est{s, "", e.facts}.enc())
 					}
 				}
 			case *ssa.Call:
+				id := instrID(in)
 				for _, es := range cur {
-					st, ds := splitState(es)
-					for _, o := range f.doCall(fr, st, in, false) {
-						next = append(next, o+deferSep+ds)
+					e := dec(es)
+					for _, o := range f.doCall(fr, e.st, in, false) {
+						parts := strings.SplitN(o, retSep, 2)
+						facts := e.facts
+						if f.TrackBoolReturns {
+							rets := ""
+							if len(parts) == 2 {
+								rets = parts[1]
+							}
+							facts = setFacts(facts, id, rets)
+						}
+						next = append(next, est{parts[0], e.defers, facts}.enc())
 					}
 				}
 			case *ssa.Return:
+				rets := ""
+				if f.TrackBoolReturns {
+					var rs []string
+					for i, v := range returnedValues(in) {
+						if c, ok := v.(*ssa.Const); ok && c.Value != nil && c.Value.Kind() == constant.Bool {
+							rs = append(rs, fmt.Sprintf("%d=%s", i, c.Value.ExactString()))
+						}
+					}
+					rets = strings.Join(rs, ",")
+				}
 				for _, es := range cur {
-					st, _ := splitState(es)
-					outs := []string{st}
+					e := dec(es)
+					outs := []string{e.st}
 					if f.Exit != nil {
-						if r := f.Exit(fr, st, in); r != nil {
+						if r := f.Exit(fr, e.st, in); r != nil {
 							outs = r
 						}
 					}
-					exits = append(exits, outs...)
+					for _, o := range outs {
+						exits = append(exits, o+retSep+rets)
+					}
 				}
 				terminated = true
 			case *ssa.Panic:
@@ -238,16 +315,14 @@ func (f *Flow) runOne(fr *Frame, st0 string) []string {
 				next = cur
 			default:
 				for _, es := range cur {
-					st, ds := splitState(es)
-					outs := []string{st}
+					e := dec(es)
+					outs := []string{e.st}
 					if f.Instr != nil {
-						if r := f.Instr(fr, st, in); r != nil {
+						if r := f.Instr(fr, e.st, in); r != nil {
 							outs = r
 						}
 					}
-					for _, o := range outs {
-						next = append(next, o+deferSep+ds)
-					}
+					next = append(next, apply(e, outs)...)
 				}
 			}
 			if terminated {
@@ -255,8 +330,7 @@ func (f *Flow) runOne(fr *Frame, st0 string) []string {
 			}
 			cur = uniq(next)
 			for _, es := range cur {
-				st, _ := splitState(es)
-				f.Seen[st] = true
+				f.Seen[dec(es).st] = true
 			}
 			if len(cur) == 0 {
 				break
@@ -265,17 +339,43 @@ func (f *Flow) runOne(fr *Frame, st0 string) []string {
 		if terminated || len(cur) == 0 {
 			continue
 		}
+		// boolean facts may decide an If
+		var factCall string
+		factIdx, factNeg, haveCond := 0, false, false
+		if f.TrackBoolReturns && len(b.Succs) == 2 {
+			if iff, ok := b.Instrs[len(b.Instrs)-1].(*ssa.If); ok {
+				base, neg := condOf(iff.Cond)
+				switch x := base.(type) {
+				case *ssa.Call:
+					if x.Parent() == fn {
+						factCall, factIdx, factNeg, haveCond = instrID(x), 0, neg, true
+					}
+				case *ssa.Extract:
+					if c, ok := x.Tuple.(*ssa.Call); ok && c.Parent() == fn {
+						factCall, factIdx, factNeg, haveCond = instrID(c), x.Index, neg, true
+					}
+				}
+			}
+		}
 		for si, succ := range b.Succs {
 			for _, es := range cur {
-				st, ds := splitState(es)
-				outs := []string{st}
+				e := dec(es)
+				if haveCond {
+					if v, ok := factOf(e.facts, factCall, factIdx); ok {
+						truth := (v == "true") != factNeg
+						if truth != (si == 0) {
+							continue
+						}
+					}
+				}
+				outs := []string{e.st}
 				if f.Edge != nil {
-					if r := f.Edge(fr, st, b, si); r != nil {
+					if r := f.Edge(fr, e.st, b, si); r != nil {
 						outs = r
 					}
 				}
 				for _, o := range outs {
-					ne := o + deferSep + ds
+					ne := est{o, e.defers, e.facts}.enc()
 					if !seen[succ.Index][ne] {
 						seen[succ.Index][ne] = true
 						f.Seen[o] = true
@@ -291,6 +391,7 @@ func (f *Flow) runOne(fr *Frame, st0 string) []string {
 	return exits
 }
 
+// doCall returns states encoded as st [+ retSep + rets].
 func (f *Flow) doCall(fr *Frame, st string, c ssa.CallInstruction, deferred bool) []string {
 	if f.Call != nil {
 		if handled, out := f.Call(fr, st, c, deferred); handled {
@@ -304,8 +405,15 @@ func (f *Flow) doCall(fr *Frame, st string, c ssa.CallInstruction, deferred bool
 		if f.AfterCall != nil {
 			var n []string
 			for _, o := range outs {
-				if r := f.AfterCall(fr, o, c, callee); r != nil {
-					n = append(n, r...)
+				parts := strings.SplitN(o, retSep, 2)
+				tail := ""
+				if len(parts) == 2 {
+					tail = retSep + parts[1]
+				}
+				if r := f.AfterCall(fr, parts[0], c, callee); r != nil {
+					for _, x := range r {
+						n = append(n, x+tail)
+					}
 				} else {
 					n = append(n, o)
 				}
